@@ -399,19 +399,6 @@ void trace_moduli() {
     verif::ctx().concolic = false;
     verif::output("accepted", Sym(b ? 1 : 0));
   }
-  {
-    // isIsotropic on the tensor computed from (E,nu)
-    Unit u("isIsotropic_YN");
-    const Sym E = verif::scalar_input("E", 200.);
-    const Sym nu = verif::scalar_input("nu", 0.3);
-    const YoungNuModuli<Sym> m(E, nu);
-    const Sym eps = verif::scalar_input("eps", 1e-12);
-    const st2tost2<3u, Sym> C = computeIsotropicStiffnessTensor<Sym>(m);
-    verif::ctx().concolic = true;
-    const bool b = isIsotropic<Sym>(C, eps);
-    verif::ctx().concolic = false;
-    verif::output("accepted", Sym(b ? 1 : 0));
-  }
 }
 
 int main() {
